@@ -988,7 +988,7 @@ def hs_relations(tier):
         for number2, typ2 in HS_COMBOS:
             if (number2, typ2) == (number, typ):
                 continue
-            rel = "type-changed" if number2 == number else ("number-changed" if typ2 == typ else "type+number-changed")
+            rel = "key-redeclared"
             alt = base[:i] + [(k, number2, typ2)] + base[i + 1:]
             ci = HS_COMBOS.index((number2, typ2))
             if not quick or (i + ci) % 2 == 0:                 # quick: the two orders alternate over (key, declaration)
@@ -1003,11 +1003,11 @@ def hs_relations(tier):
         alt = list(base)
         for x in (i, j):
             alt[x] = (base[x][0],) + [c for c in HS_COMBOS if c != base[x][1:]][(x + i) % (len(HS_COMBOS) - 1)]
-        yield "type+number-changed", [F(base, n=2), F(alt)]
-        yield "type+number-changed", [F(alt, n=2), F(base)]
+        yield "key-redeclared", [F(base, n=2), F(alt)]
+        yield "key-redeclared", [F(alt, n=2), F(base)]
     for shift in (1, 3):
         alt = [(k,) + HS_COMBOS[(HS_COMBOS.index((number, typ)) + shift) % len(HS_COMBOS)] for k, number, typ in base]
-        yield "type+number-changed", [F(base), F(alt), F(base, n=1)]
+        yield "key-redeclared", [F(base), F(alt), F(base, n=1)]
     # the same declarations in another order
     for s in range(1, n):
         yield "order-changed", [F(base, n=2), F(base[s:] + base[:s])]
@@ -1041,8 +1041,8 @@ def hs_relations(tier):
     yield "same-declarations", [F(base, n=1), F(base, n=3), F(base, n=2)]
     # another number of sample columns and another declaration
     alt = [base[0][:2] + ("String",)] + base[1:]
-    yield "type-changed", [F(base, ns=3), F(alt, ns=1, n=2)]
-    yield "type-changed", [F(alt, ns=1), F(base, ns=2, n=2)]
+    yield "key-redeclared", [F(base, ns=3), F(alt, ns=1, n=2)]
+    yield "key-redeclared", [F(alt, ns=1), F(base, ns=2, n=2)]
 
 
 HS_VARIANTS = [("lazy", "sequential"), ("eager", "sequential"), ("lazy", "deferred")]
@@ -1059,6 +1059,11 @@ def gen_vcf_histories(tier):
         for hi, (rel, specs) in enumerate(hs_relations(tier)):
             if fmt != "vcf-info" and quick and (hi + fi) % 6:
                 continue
+            # the IDs are the history's own (suffix = buffer type letter + number of the history): the histories are independent
+            # of each other, whatever the library remembers about a declared ID
+            tag = "%s%d" % ("imgph"[fi], hi)
+            ren = lambda decl: [(k + tag, number, typ) for k, number, typ in decl]
+            specs = [dict(s, decl=ren(s["decl"]), **({"keys": ren(s["keys"])} if "keys" in s else {})) for s in specs]
             texts = [hs_file(fmt, s, hi + 2 * x) for x, s in enumerate(specs)]
             if any(t is None for t in texts):
                 continue
